@@ -375,3 +375,107 @@ def install_pack(recorder):
 
     W.PackInteger = PackInteger
     _PACK["installed"] = True
+
+
+# --------------------------------------------------------------- C20 source positions
+class PositionRecorder:
+    def __init__(self):
+        self.evaluations = 0
+        self.str_evaluations = 0
+        self.findings = []
+        self.seen = set()
+
+    def find(self, kind, detail, text=None):
+        k = (kind, detail)
+        if k in self.seen:
+            return
+        self.seen.add(k)
+        if len(self.findings) < 500:
+            self.findings.append({"kind": kind, "detail": detail, "text": text})
+
+
+_POS = {"rec": None, "installed": False, "texts": None}
+
+
+def naive_line(text, off):
+    return text.count("\n", 0, off)
+
+
+def naive_line_start(text, line):
+    pos = 0
+    for _ in range(line):
+        pos = text.index("\n", pos) + 1
+    return pos
+
+
+def naive_location_string(text, b, e):
+    """1-based line:column, end written as (exclusive end offset - line start + 1): the convention of Location.__str__"""
+    lb, le = naive_line(text, b), naive_line(text, e)
+    sb = b - (text.rfind("\n", 0, b) + 1)
+    se = e - (text.rfind("\n", 0, e) + 1)
+    if lb == le:
+        return "%d:%d-%d" % (lb + 1, sb + 1, se + 1)
+    return "%d:%d-%d:%d" % (lb + 1, sb + 1, le + 1, se + 1)
+
+
+def install_positions(recorder):
+    _POS["rec"] = recorder
+    if _POS["installed"]:
+        return
+    import nsl.ast as A
+    _POS["texts"] = weakref.WeakKeyDictionary()
+    SM = A.SourceMapping
+    orig_init = SM.__init__
+    orig_line = SM.GetLineFromOffset
+    orig_start = SM.GetLineStartOffset
+
+    def __init__(self, source, *a, **kw):
+        orig_init(self, source, *a, **kw)
+        _POS["texts"][self] = source
+
+    def line_postcondition(self, offset, result):
+        r, text = _POS["rec"], _POS["texts"].get(self)
+        if r is not None and text is not None and 0 <= offset <= len(text):
+            r.evaluations += 1
+            want = naive_line(text, offset)
+            if result != want:
+                r.find("line-of-offset", "offset %d of %r: line %r, recount gives %d" % (offset, text[:40], result, want), text)
+        return True
+
+    def start_postcondition(self, line, result):
+        r, text = _POS["rec"], _POS["texts"].get(self)
+        if r is not None and text is not None and 0 <= line <= text.count("\n"):
+            r.evaluations += 1
+            want = naive_line_start(text, line)
+            if result != want:
+                r.find("line-start", "line %d of %r: start %r, recount gives %d" % (line, text[:40], result, want), text)
+        return True
+
+    SM.__init__ = __init__
+    SM.GetLineFromOffset = icontract.ensure(line_postcondition, error=ContractBroken)(orig_line)
+    SM.GetLineStartOffset = icontract.ensure(start_postcondition, error=ContractBroken)(orig_start)
+
+    Loc = A.Location
+    orig_str = Loc.__str__
+
+    def str_postcondition(self, result):
+        r = _POS["rec"]
+        if r is None:
+            return True
+        try:
+            sm = self._Location__sourceMapping
+            text = _POS["texts"].get(sm) if sm is not None else None
+        except Exception:
+            text = None
+        if text is None or self.IsUnknown:
+            return True
+        b, e = self.GetBegin(), self.GetEnd()
+        if 0 <= b <= e <= len(text):
+            r.str_evaluations += 1
+            want = naive_location_string(text, b, e)
+            if result != want:
+                r.find("location-string", "span [%d,%d) of %r printed as %s, recount gives %s" % (b, e, text[:40], result, want), text)
+        return True
+
+    Loc.__str__ = icontract.ensure(str_postcondition, error=ContractBroken)(orig_str)
+    _POS["installed"] = True
